@@ -15,6 +15,7 @@ import (
 	"istio.io/istio/pilot/pkg/model"
 	"istio.io/istio/pilot/pkg/networking/core"
 	"istio.io/istio/pilot/pkg/xds/endpoints"
+	"istio.io/istio/pkg/util/sets"
 	"verifharness/internal/wire"
 )
 
@@ -72,6 +73,69 @@ func (w *world) outboundClustersWith(gen *core.ConfigGeneratorImpl, p *model.Pro
 // virtual host names (host:port) - the route-level observation point.
 func (w *world) routeVirtualHosts(p *model.Proxy, withDomains bool) []string {
 	return w.routeVirtualHostsWith(configGen, p, withDomains)
+}
+
+// allClusterNames: every cluster name of the full (state of the world) CDS answer, the watched set of a delta client.
+func (w *world) allClusterNames(p *model.Proxy) []string {
+	raw, _ := configGen.BuildClusters(p, &model.PushRequest{Push: w.ps, Start: time.Now()})
+	var names []string
+	for _, r := range raw {
+		names = append(names, r.Name)
+	}
+	sort.Strings(names)
+	return names
+}
+
+// oracleDeltaCDS: the delta variant of CDS (the default xDS variant). A proxy that holds the full answer of the
+// context before an update (`before`) gets BuildDeltaClusters for the updated object on the new context; what it
+// then holds (before - removed, overwritten / extended by the delta resources) must be exactly the full answer of
+// the new context - which the scope clauses judge - so a delta can neither keep nor add a cluster of a service
+// outside the proxy's scope.
+func (w *world) oracleDeltaCDS(p *model.Proxy, ns string, before []string) string {
+	if w.lastKey == nil {
+		return ""
+	}
+	// the same connection moves on to the new context (SetSidecarScope keeps the previous scope for the diff)
+	p.SetSidecarScope(w.ps)
+	p.SetServiceTargets(w.env.ServiceDiscovery)
+	res, removed, _, usedDelta := configGen.BuildDeltaClusters(p,
+		&model.PushRequest{Push: w.ps, ConfigsUpdated: sets.New(*w.lastKey), Start: time.Now()},
+		&model.WatchedResource{TypeUrl: "type.googleapis.com/envoy.config.cluster.v3.Cluster", ResourceNames: sets.New(before...)})
+	if !usedDelta {
+		return ""
+	}
+	cnt("delta-cds-after-update")
+	held := map[string]bool{}
+	for _, n := range before {
+		held[n] = true
+	}
+	for _, n := range removed {
+		delete(held, n)
+	}
+	for _, r := range res {
+		held[r.Name] = true
+	}
+	want := map[string]bool{}
+	for _, n := range w.allClusterNames(p) {
+		want[n] = true
+	}
+	for n := range held {
+		if !want[n] {
+			if f := strings.Split(n, "|"); len(f) == 4 && f[0] == "outbound" && p.SidecarScope.GetService(hostName(f[3])) == nil {
+				return "delta-cluster-for-service-outside-scope " + wire.Enc(n) + " " + ns
+			}
+			// a stale cluster of a service that IS in the scope: delta / full consistency, not visibility (observation O10)
+			cnt("delta-cds-keeps-cluster-the-full-answer-lacks")
+		}
+	}
+	for n := range want {
+		if !held[n] {
+			// under-delivery by the delta path (seen with the legacy DestinationRule merge and a deleted wildcard rule):
+			// not a visibility question either (observation O10)
+			cnt("delta-cds-lacks-cluster-of-the-full-answer")
+		}
+	}
+	return ""
 }
 
 // oracleCachedXDS: the xDS generators run with a real XdsCache (the production configuration; everything else in
